@@ -16,6 +16,9 @@ Fixpoint quiet (e : expr) : bool :=
   | EBin o a b => match o with BDiv | BMod => false | _ => quiet a && quiet b end
   | ECall _ _ => false
   | ECond c a b => quiet c && quiet a && quiet b
+  | EArr es => forallb quiet es
+  | EAt _ _ => false                              (* can fault: an index out of range aborts *)
+  | ELen a => quiet a
   end.
 
 Fixpoint loud_count (l : list expr) : nat :=
@@ -28,6 +31,9 @@ Fixpoint se_expr (e : expr) : bool :=
   | EBin _ a b => se_expr a && se_expr b
   | ECall _ args => Nat.leb (loud_count args) 1 && forallb se_expr args
   | ECond c a b => se_expr c && se_expr a && se_expr b
+  | EArr es => Nat.leb (loud_count es) 1 && forallb se_expr es          (* dynarray_literal_int(n, e1, .., en) *)
+  | EAt a i => Nat.leb (loud_count [a; i]) 1 && se_expr a && se_expr i  (* nl_array_at_int(a, i) *)
+  | ELen a => se_expr a
   end.
 
 Fixpoint se_stmt (s : stmt) : bool :=
@@ -78,6 +84,12 @@ Definition call_tail (ord : arg_order) (fns : list fn) (fuel' : nat) (genv : nen
             | _ => NStuck end)
       end
   end.
+
+(* what nat_expr does with the element values of an array literal, and with the two operand values of (at a i) *)
+Definition arr_tail (vs : list value) (out1 : list N) : nres value :=
+  match ints_of vs with Some l => NOk (VArr l) out1 | None => NStuck end.
+Definition at_tail (vs : list value) (out2 : list N) : nres value :=
+  match vs with [va; vi] => nat_at va vi out2 | _ => NStuck end.
 
 (* how run_nat turns the result of "globals; main()" into an outcome *)
 Definition nat_finish (r : nres value) : nat_outcome :=
@@ -132,6 +144,15 @@ Fixpoint qeval (genv en : nenv) (e : expr) : option value :=
         | VBool false => qeval genv en b
         | _ => None end)
   | ECall _ _ => None
+  | EArr es =>
+      obind ((fix go (l : list expr) : option (list value) :=
+                match l with
+                | [] => Some []
+                | a :: r => obind (qeval genv en a) (fun v => obind (go r) (fun vs => Some (v :: vs)))
+                end) es)
+            (fun vs => match ints_of vs with Some l => Some (VArr l) | None => None end)
+  | EAt _ _ => None
+  | ELen a => obind (qeval genv en a) (fun va => match va with VArr l => Some (VInt (Z.of_nat (length l))) | _ => None end)
   end.
 Fixpoint qargs (q : expr -> option value) (l : list expr) : option (list value) :=
   match l with
@@ -145,5 +166,7 @@ Fixpoint qdepth (e : expr) : nat :=
   | EUn _ a => S (qdepth a)
   | EBin _ a b => S (Nat.max (qdepth a) (qdepth b))
   | ECond c a b => S (Nat.max (qdepth c) (Nat.max (qdepth a) (qdepth b)))
+  | EArr es => S ((fix go (l : list expr) : nat := match l with [] => O | a :: r => Nat.max (qdepth a) (go r) end) es)
+  | ELen a => S (qdepth a)
   | _ => O
   end.
